@@ -303,6 +303,15 @@ def handle (st : DState) (line : String) : DState × String :=
     match Framing.readCmd (s.length + 2) s with
     | some (c, _) => (st, toString c.length)
     | none => (st, "none")
+  | ["seqtext", bytes] =>
+    -- `SequenceSet.parse` on raw bytes: elements as n | * | a:b separated by spaces, then | and the rest
+    let showIdx (i : Seq.Idx) : String := match i with | .star => "*" | .num n => toString n
+    let showElem (e : Seq.Elem) : String := match e with | .one i => showIdx i | .range l r => showIdx l ++ ":" ++ showIdx r
+    match SeqText.parse (parseNats bytes) with
+    | some (es, rest) => (st, " ".intercalate (es.map showElem) ++ "|" ++ showNats rest)
+    | none => (st, "none")
+  | ["zone", "fmt", z] => (st, match z.toInt? with | some v => showNats (Zone.fmt v) | none => "bad-int")
+  | ["zone", "parse", bytes] => (st, match Zone.parse (parseNats bytes) with | some v => toString v | none => "none")
   | ["astring", maxLen, bytes] =>
     match AStr.parse maxLen.toNat! (parseNats bytes) with
     | some (v, rest) => (st, s!"{showNats v}|{showNats rest}")
@@ -369,6 +378,11 @@ def handle (st : DState) (line : String) : DState × String :=
   | ["sieve", "step", c] =>
     let r := Sieve.step st.sconn st.sstore (parseSieveCmd c)
     ({ st with sconn := r.1, sstore := r.2.1 }, showSieveResp r.2.2 ++ " " ++ (match r.1.user with | some u => toString u | none => "-"))
+  | ["sieve1", maxLen, slot, c] =>
+    -- the one-script store of the maildir backend (stateless: the harness carries each user's slot)
+    let sl : SieveSingle.Slot := if slot == "none" then none else some (parseNats slot)
+    let r := SieveSingle.runState maxLen.toNat! sl (parseSieveCmd c)
+    (st, showSieveResp r.2 ++ "|" ++ (match r.1 with | some v => showNats v | none => "none"))
   | ["conn", "reset", lo, tls] =>
     let w := Conn.Wire.init (lo == "1") (tls == "1")
     ({ st with conn := w.st, connAdv := w.adv }, "ok")
